@@ -198,6 +198,16 @@ def op_update_key(msg, ref):
 op_update_key.base = "update_key"
 
 
+def op_update_key_clash(msg, ref):
+    """a renaming the message must refuse (the new name belongs to another listed AVP): refused or not, names, list and
+    length stay coherent"""
+    names = list(names_of(msg))
+    if len(names) < 2:
+        return
+    msg.update_key(names[0], names[-1])
+op_update_key_clash.base = "update_key"
+
+
 def op_update_avps(value):
     def f(msg, ref):
         names = names_of(msg)
@@ -243,7 +253,7 @@ op_refresh.base = "refresh"
 
 OPS = [op_append("A"), op_append("A"), op_append("B"), op_append("U"), op_append("G"), op_append("R"), op_append("V"), op_append("P"),
        op_pop("first"), op_pop("last"), op_pop("mid"), op_cleanup, op_setavps("AB"), op_setavps("A"), op_setitem("first", "B"),
-       op_setitem("last", "A"), op_setitem("last", "U"), op_setitem("first", "P"), op_update_key, op_update_avps("new.host"), op_update_avps("x"), op_refresh,
+       op_setitem("last", "A"), op_setitem("last", "U"), op_setitem("first", "P"), op_update_key, op_update_key_clash, op_update_avps("new.host"), op_update_avps("x"), op_refresh,
        op_extend("AU"), op_append("S"), op_update_avp("a.much.longer.host.name"), op_update_avp("q"), op_append_again]
 OPS = OPS[1:]   # one append(A) is enough: every call creates a fresh, equal-valued object
 
